@@ -11,3 +11,5 @@ for p in "$@"; do
 done
 git -C /repo reset -q --hard HEAD
 git -C /repo status --short
+git -C /verif checkout -q -- evidence 2>/dev/null  # evidence written while /repo was patched is not kept
+python3 /verif/tools/gen_consts.py > /dev/null
